@@ -32,12 +32,19 @@ def gen(rng, k):
     p = {"ref": ref, "L": L, "t": t, "noise": [0.0, 0.5][k % 2],
          "center": None if k % 3 == 0 else rng.uniform(-40, 40, 2),
          "w": None if k % 4 == 0 else rng.uniform(0.1, 10, n), "seed": int(rng.integers(1 << 30))}
+    # reference positions kept as integer pixel positions (integer dtype) by the caller, fractional centre
+    p["int_ref"] = (k // 12) % 3 == 1 and np.linalg.matrix_rank(np.hstack([np.round(ref), np.ones((n, 1))]), tol=1e-3) == 3
     return p
+
+
+def ref_of(p):
+    ref = np.asarray(p["ref"])
+    return np.round(ref).astype(np.int64) if p.get("int_ref") else ref
 
 
 def targets(p):
     rng = np.random.default_rng(p["seed"])
-    ref = np.asarray(p["ref"])
+    ref = ref_of(p)
     return ref @ np.asarray(p["L"]).T + np.asarray(p["t"]) + rng.normal(0, 1, ref.shape) * p["noise"]
 
 
@@ -46,7 +53,7 @@ def corr(ctx, drv):
     n = 150 if ctx.tier == "thorough" else 40
     for k in range(n):
         p = gen(rng, k)
-        ref, peaks = np.asarray(p["ref"]), targets(p)
+        ref, peaks = ref_of(p), targets(p)
         c = np.zeros(2) if p["center"] is None else np.asarray(p["center"])
         w = np.ones(len(ref)) if p["w"] is None else np.asarray(p["w"])
         msgs = []
@@ -73,7 +80,7 @@ def corr(ctx, drv):
 
 def run_case(kind, p):
     msgs = []
-    ref, peaks = np.asarray(p["ref"]), targets(p)
+    ref, peaks = ref_of(p), targets(p)
     w = p["w"]
     c = p["center"]
     fit = grm.get_transformation(ref, peaks, center=c, weighs=w)
@@ -118,6 +125,7 @@ def search(ctx, boost=1, focus=()):
     n = (400 if ctx.tier == "thorough" else 100) * boost
     for k in range(n):
         p = gen(rng, k)
+        ctx.count("int_ref" if p["int_ref"] else "float_ref")
         ctx.oracle_case("transformation", p, run_case("transformation", p),
                         nontrivial=(p["center"] is not None and p["w"] is not None))
     ctx.count("oracle_transformation", n)
